@@ -53,6 +53,10 @@ for e, fn, rep, pre in (('h_populate', 'init_table_populate_partition', ('_cds_l
         min_covers=2, checks=('--bounds-check', '--signed-overflow-check', '--div-by-zero-check'), timeout=300, functions=(fn,),
         assumptions=('_cds_lfht_add (bucket mode) / _cds_lfht_gc_bucket are used through contracts whose preconditions are the call shapes; their bodies are the subject of C08.O5.add_bucket and C07.O2.gc_bucket',),
         desc=fn + ' (loop invariant: any order, start, len): each bucket index of the share exactly once, in order, with the documented call shape (old size / parent bucket, reverse hash set first, REMOVED before unlink), inside one read-side critical section'))
+for e, fns, d in (('h_wq_queue_work', ('urcu_workqueue_queue_work', 'wake_worker_thread', 'futex_wake_up'), 'urcu_workqueue_queue_work on queues of 0..2 items: one FIFO enqueue, qlen + 1, enqueue -> barrier -> futex test, wake iff the worker sleeps (resize and destroy work are ordered through this one queue)'),
+                  ('h_wq_iteration', ('workqueue_thread',), 'one pass of workqueue_thread: every queued item exactly once in FIFO order, grace-period callback once per batch, queue left empty')):
+    OBLIGATIONS.append(Ob(name='C09.O7.' + e[2:], harness='C16/wq_fork.c', entry=e, unwind=5, min_covers=2, checks=('--bounds-check', '--signed-overflow-check', '--div-by-zero-check'), timeout=300, rules=('wq_fork',), functions=fns,
+        tier='P' if e == 'h_wq_queue_work' else 'B', bound='' if e == 'h_wq_queue_work' else '<= 2 queued work items', desc=d))
 LZ = 'C09/lazy.c'
 CKZ = ('--bounds-check', '--signed-overflow-check', '--div-by-zero-check')
 for e, fns, rep, dfn, d in (
